@@ -228,8 +228,14 @@ def run(repo):
             if 'var' in env and shape_arg is None:          # VarSub.__init__(var, indices)
                 shape_arg = env['var']
             cands = inline(fi, shape_arg) if shape_arg is not None else []
-            ok = any(ntext(c) in (owner + '.const', owner + '.shape', owner,
-                                  'np.zeros(%s.shape)' % owner) for c in cands)
+            def same_shape(c):
+                if ntext(c) in (owner + '.const', owner + '.shape', owner):
+                    return True
+                # an array allocated with the owner's shape: np.zeros(owner.shape[, dtype]) / ones / empty / full
+                return isinstance(c, ast.Call) and ntext(c.func) in (
+                    'np.zeros', 'np.ones', 'np.empty', 'np.full', 'numpy.zeros', 'numpy.ones', 'numpy.empty',
+                    'numpy.full') and bool(c.args) and ntext(c.args[0]) == owner + '.shape'
+            ok = any(same_shape(c) for c in cands)
             res.functions.add(fi.fq)
             res.inst({'function': fi.fq, 'forwards_memo_of': owner,
                       'with_shape_source': [ntext(c)[:40] for c in cands], 'ok': ok}, ok)
